@@ -31,6 +31,32 @@ def map_mutations(B, field):
     return out
 
 
+def _sinks(P, B, local, depth=0):
+    """names of the calls that consume the value held in `local` (forward slice), following calls into
+    functions of this repository whose parameter receives it (two levels)"""
+    out = set()
+    d = B.derived_locals([local]) | {local}
+    for bb, t in B.calls():
+        hit = [i for i, a in enumerate(t['args']) if any(l in d for l in B._op_locals(a))]
+        if not hit:
+            continue
+        for n in callee_names(t):
+            out.add(n)
+            if depth < 2 and n in P.F.bodies and n.startswith('edp_'):
+                HB = P.B(n)
+                for i in hit:
+                    if i + 1 <= HB.b['argc']:
+                        out |= _sinks(P, HB, i + 1, depth + 1)
+                # async fn: the parameter is captured by the coroutine body
+                CB = P.B(n + '::{closure#0}')
+                if CB is not None:
+                    for bb2, t2 in CB.calls():
+                        for n2 in callee_names(t2):
+                            if n2.rsplit('::', 1)[-1] in ('send', 'try_send'):
+                                out.add(n2)
+    return out
+
+
 def has_fields(projs, *names):
     return all(any(p == n or p == 'upvar:' + n for p in projs) for n in names)
 
@@ -82,6 +108,28 @@ def run(ctx):
                 for bb, t, name in map_mutations(Bp, f):
                     if any(name.endswith(m) for m in REMOVERS):
                         touched[f].append((p, name.split('::')[-1]))
+        # by_name: ALL names of the pid go, not just one (register() lets a process hold several names)
+        from ..wire import _sccs as _sccs2
+        all_names = False
+        single = None
+        for p_ in sorted(reach):
+            Bq = P.B(p_)
+            loops = [set(c) for c in _sccs2(Bq, Bq.live_blocks()) if len(c) > 1]
+            for bb, t, name in map_mutations(Bq, 'by_name'):
+                if any(name.endswith(m) for m in ('::retain', '::clear', '::extract_if')):
+                    all_names = True
+                elif name.endswith('::remove') or name.endswith('::remove_entry'):
+                    if any(bb in l for l in loops):
+                        all_names = True
+                    else:
+                        single = (Bq, bb)
+        if touched['by_name']:
+            if all_names:
+                ctx.ok('C18.1-exit-cleans-registry', 'remove:by_name:every-name', 'every entry mapping to the pid is deleted (retain / removal inside a loop)')
+            else:
+                ctx.bad('C18.1-exit-cleans-registry', 'remove:by_name:every-name', 'ProcessRegistry::remove deletes at most one by_name entry (a single remove outside any loop): '
+                        'a process registered under two names leaves the other name resolving to the dead pid, and that name can never be registered again',
+                        ctx.where(single[0], single[1]) if single else None, key='PAIR:%s::remove:by_name:single-name' % REG)
         for f in ('by_pid', 'by_name'):
             if touched[f]:
                 ctx.ok('C18.1-exit-cleans-registry', 'remove:' + f, 'ProcessRegistry::remove deletes from %s (%s)' % (f, touched[f][0][1]))
@@ -144,6 +192,19 @@ def run(ctx):
                 else:
                     ctx.bad('C18.3-notify-before-remove', var + ':reference', 'monitor notice reference does not come from the stored monitor entry: %s' % s[:200], ctx.where(Bp, bb),
                             key='PROV:%s:%s:reference' % (PROP, var))
+        # delivery: a notice is handed over with the awaiting send, never with a lossy try_send
+        for var in ('Exit', 'MonitorExit'):
+            for bb, st in notices.get(var, [])[:1]:
+                sinks = _sinks(P, Bp, st['pl']['l'])
+                lossy = [n for n in sinks if n.rsplit('::', 1)[-1] in ('try_send', 'try_reserve', 'try_send_ref')]
+                good = [n for n in sinks if n.endswith('ProcessHandle::send') or (n.endswith('Sender::<T>::send') and 'mpsc' in n)]
+                if lossy:
+                    ctx.bad('C18.3-notify-before-remove', var + ':delivery', 'the %s notice is handed over with %s, which gives up when the peer\'s mailbox is full: a busy linked/monitoring process is never told' % (var, lossy[0].rsplit('::', 2)[-2] + '::' + lossy[0].rsplit('::', 1)[-1]),
+                            ctx.where(Bp, bb), key='WHO:%s:%s:lossy-delivery' % (PROP, var))
+                elif good:
+                    ctx.ok('C18.3-notify-before-remove', var + ':delivery', 'delivered with %s (waits for room in the mailbox)' % good[0].rsplit('::', 2)[-2], ctx.where(Bp, bb))
+                else:
+                    ctx.undecided('C18.3-notify-before-remove', var + ':delivery', 'delivery call not recognised: %s' % sorted(sinks)[:4])
         # snapshot sources
         srcs = [n for bb, t in Bp.calls() for n in callee_names(t) if n.endswith('ProcessHandle::get_links') or n.endswith('ProcessHandle::get_monitors')]
         if len(set(srcs)) == 2:
